@@ -1452,8 +1452,9 @@ func valueFromMap(aMap interface{}, key interface{}) (interface{}, error) {
 	}
 	v := m.MapIndex(reflect.ValueOf(key))
 	if !v.IsValid() {
-		// return the zero value for the map value type
-		return reflect.Indirect(reflect.New(m.Type().Elem())).Interface(), nil
+		// a map without the key has no value for it: not the zero value,
+		// which a map holding the key may have
+		return nil, nil
 	}
 
 	return v.Interface(), nil
